@@ -14,7 +14,7 @@ NOTES = {'C12r14-a': 'confirmed at db45bf7, the tree the sub-agent worked on. Th
 PORTED = {'C04-b': 'ported_C04b_narrow_lock.diff', 'C13-a': 'ported_C13a_request_flag.diff', 'C14-b': 'ported_C14b_reserved_id_guard.diff'}
 # import round 2
 for pid in ['C01','C02','C03','C04','C05','C06','C07','C08','C09','C10','C11','C12','C13','C14','C15','C16','C17']:
-  for rnd in (2, 3, 4, 5, 6, 7, 8, 9, 10, 11, 12, 13, 14):
+  for rnd in (2, 3, 4, 5, 6, 7, 8, 9, 10, 11, 12, 13, 14, 15):
     for ab in 'ab':
         src = '/tmp/seed/%sr%d/seed/%s' % (pid, rnd, ab)
         sid = '%sr%d-%s' % (pid, rnd, ab)
